@@ -166,6 +166,18 @@ def handle (op : String) (req : Json) : R Json := do
                 ("aliased", jOpt (jTable jBool) (aliased f.size d)),
                 ("edges", jList jRat (flatten wins)),
                 ("hyp", jBool (hyp f))])
+  | "c05.extract" =>
+    -- one more `extract_masses` call on the same file (histories, other argument types): the light
+    -- version of `c05.image`
+    let f ← parseFile req
+    let masses ← getList asRat req "masses"
+    let width ← fld req "width" >>= parseWidth
+    let d := spectraDict f.specs
+    let wins := windows masses width
+    pure (jObj [("extract_model", jImage jVec (extractImage f.size d masses width)),
+                ("extract_spec", jOpt (jTable jVec) (specTable f (fun s => specSpectrum s.mz s.it wins))),
+                ("edges", jList jRat (flatten wins)),
+                ("hyp", jBool (hyp f))])
   | "c05.bins" =>
     let f ← parseFile req
     let w ← getRat req "w"
